@@ -159,9 +159,9 @@ typedef struct {
 
 static struct {
 	int ready;
-	tp_skey srv_rsa, srv_ecec, srv_ecrsa, srv_ec384, cli_rsa, cli_ec, other_rsa, other_ec, weak_rsa;
+	tp_skey srv_rsa, srv_ecec, srv_ecrsa, srv_ec384, cli_rsa, cli_ec, other_rsa, other_ec, weak_rsa, cli_rsa4k;
 	br_x509_certificate ch_srv_rsa[1], ch_srv_ecec[1], ch_srv_ecrsa[1], ch_srv_ec384[1],
-		ch_cli_rsa[1], ch_cli_ec[1], ch_weak_rsa[1];
+		ch_cli_rsa[1], ch_cli_ec[1], ch_weak_rsa[1], ch_cli_rsa4k[1];
 	/* longer chains: leaf + intermediate, a leaf of 21 kB + intermediate, leaf + the (superfluous) root */
 	br_x509_certificate ch_srv_rsa_int[2], ch_srv_ecrsa_int[2], ch_cli_rsa_int[2], ch_srv_rsa_big[2], ch_srv_rsa_root[2];
 	tp_anchor anchors[3];      /* ca_rsa, ca_ec, ca_other */
@@ -244,6 +244,7 @@ tp_fixtures(void)
 	tp_load_skey(&tp_fx.other_rsa, FX_other_rsa_key, FX_other_rsa_key_len);
 	tp_load_skey(&tp_fx.other_ec, FX_other_ec_key, FX_other_ec_key_len);
 	tp_load_skey(&tp_fx.weak_rsa, FX_weak_rsa_key, FX_weak_rsa_key_len);
+	tp_load_skey(&tp_fx.cli_rsa4k, FX_cli_rsa4k_key, FX_cli_rsa4k_key_len);
 	TP_CERT(tp_fx.ch_srv_rsa, srv_rsa);
 	TP_CERT(tp_fx.ch_srv_ecec, srv_ecec);
 	TP_CERT(tp_fx.ch_srv_ecrsa, srv_ecrsa);
@@ -251,6 +252,7 @@ tp_fixtures(void)
 	TP_CERT(tp_fx.ch_cli_rsa, cli_rsa);
 	TP_CERT(tp_fx.ch_cli_ec, cli_ec);
 	TP_CERT(tp_fx.ch_weak_rsa, weak_rsa);
+	TP_CERT(tp_fx.ch_cli_rsa4k, cli_rsa4k);
 	TP_CERT(tp_fx.ch_srv_rsa_int, srv_rsa_int); TP_CERT(tp_fx.ch_srv_rsa_int + 1, int_rsa);
 	TP_CERT(tp_fx.ch_srv_ecrsa_int, srv_ecrsa_int); TP_CERT(tp_fx.ch_srv_ecrsa_int + 1, int_rsa);
 	TP_CERT(tp_fx.ch_cli_rsa_int, cli_rsa_int); TP_CERT(tp_fx.ch_cli_rsa_int + 1, int_rsa);
@@ -380,6 +382,7 @@ tp_chain_pick(int role, int keykind, int client_auth, int use_ec384, int chain_k
 	}
 	if (client_auth == 1) {
 		if (chain_kind == 1) { *n = 2; return tp_fx.ch_cli_rsa_int; }
+		if (chain_kind == 2) return tp_fx.ch_cli_rsa4k;    /* RSA-4096 client key: 512-byte signatures */
 		return tp_fx.ch_cli_rsa;
 	}
 	if (client_auth == 2) return tp_fx.ch_cli_ec;
@@ -583,7 +586,7 @@ tp_ep_start(tp_ep *ep, const tp_cfg *cfg)
 			size_t chn;
 			const br_x509_certificate *chp = tp_chain_pick(0, 0, 1, 0, cfg->chain_kind, &chn);
 			br_ssl_client_set_single_rsa(ep->cc, chp, chn,
-				cfg->mismatch_key ? &tp_fx.other_rsa.rsa : &tp_fx.cli_rsa.rsa,
+				cfg->mismatch_key ? &tp_fx.other_rsa.rsa : cfg->chain_kind == 2 ? &tp_fx.cli_rsa4k.rsa : &tp_fx.cli_rsa.rsa,
 				br_rsa_pkcs1_sign_get_default());
 		} else if (cfg->role == 0 && cfg->client_auth == 2) {
 			br_ssl_client_set_single_ec(ep->cc, tp_fx.ch_cli_ec, 1,
